@@ -41,6 +41,7 @@ type Op struct {
 	Same    bool     `json:"same,omitempty"`    // pub: the payload of the previous publish on this topic again (only QoS and flags differ)
 	Dup     bool     `json:"dup,omitempty"`     // pub (QoS > 0): the PUBLISH carries DUP=1 (a retransmission whose first copy was lost)
 	EOFData bool     `json:"eofdata,omitempty"` // connect: transport may return last bytes together with EOF
+	Refuse  bool     `json:"refuse,omitempty"`  // isub: the callback returns an error for what it is handed during the Subscribe call; the application then unsubscribes
 }
 
 type Plan struct {
@@ -50,6 +51,9 @@ type Plan struct {
 	Ops      []Op  `json:"ops"`
 	Seg      []int `json:"seg,omitempty"`   // transport: inbound bytes reach the broker in pieces of these sizes (cyclic)
 	Reset    bool  `json:"reset,omitempty"` // transport: the end of a client's stream is a connection reset, not io.EOF
+	// InprocErr: the in-process subscribers' callbacks return an error for every
+	// live delivery (after taking it); the other subscribers' copies are not affected.
+	InprocErr bool `json:"inproc_err,omitempty"`
 }
 
 // payload builds the message body: the first bytes name the message, the
@@ -64,6 +68,8 @@ func payload(msgno, size int) []byte {
 	}
 	return b
 }
+
+var errRefused = fmt.Errorf("refused by the application")
 
 // ---- discrepancies ---------------------------------------------------------------
 
@@ -97,9 +103,10 @@ type delivery struct {
 }
 
 type inprocSub struct {
-	mu  sync.Mutex
-	fn  service.OnPublishFunc
-	got []delivery
+	mu     sync.Mutex
+	fn     service.OnPublishFunc
+	got    []delivery
+	refuse atomic.Bool // the callback returns an error (after recording what it was handed)
 }
 
 func (s *inprocSub) take() []delivery {
@@ -980,6 +987,22 @@ func (e *exec) doInprocSub(op Op) {
 	ii := op.C % len(e.inproc)
 	s := e.inproc[ii]
 	f, q := op.Filters[0], op.QoS[0]
+	if op.Refuse {
+		// the application turns down what the subscription hands it at once and
+		// withdraws the subscription; nothing is judged but the consequences for
+		// everybody else (the stored retained messages stay what they were)
+		s.refuse.Store(true)
+		e.b.Srv.Subscribe(f, q, &s.fn)
+		s.refuse.Store(false)
+		e.b.Srv.Unsubscribe(f, &s.fn)
+		s.take()
+		if e.spec.inproc[ii] != nil {
+			delete(e.spec.inproc[ii], e.spec.m.Canon(f))
+			delete(e.vari.inproc[ii], e.vari.m.Canon(f))
+		}
+		e.class("in-process-subscribe-refused")
+		return
+	}
 	err := e.b.Srv.Subscribe(f, q, &s.fn)
 	valid := e.spec.m.ValidFilter(f) && validQoS(q)
 	got := s.take()
@@ -1244,6 +1267,9 @@ func runPlan(p Plan, known func(string) bool) outcome {
 			s.mu.Lock()
 			s.got = append(s.got, delivery{string(m.Topic()), append([]byte(nil), m.Payload()...), m.QoS(), m.Retain(), m.Dup()})
 			s.mu.Unlock()
+			if s.refuse.Load() || p.InprocErr {
+				return errRefused
+			}
 			return nil
 		}
 		e.inproc = append(e.inproc, s)
